@@ -355,6 +355,68 @@ def opMatchProducts (req : Json) : Except String Json := do
   let js (l : List Str) : Json := .arr ((sortStrs l).map ofStr).toArray
   pure (okJson (.arr #[js a, js b, js c]))
 
+def hexVal (c : Char) : Nat :=
+  if '0' ≤ c ∧ c ≤ '9' then c.toNat - '0'.toNat
+  else if 'a' ≤ c ∧ c ≤ 'f' then c.toNat - 'a'.toNat + 10
+  else 0
+
+def bytesOfHex : List Char → List Nat
+  | a :: b :: rest => (hexVal a * 16 + hexVal b) :: bytesOfHex rest
+  | _ => []
+
+def opStreams (req : Json) : Except String Json := do
+  let n := ((fieldD req "N" (.num 8192)).getNat?).toOption.getD 8192
+  let timeout : Option Int := match fieldD req "timeout" .null with
+    | .null => none
+    | j => (j.getInt?).toOption
+  let sched ← (← arr (← field req "sched")).mapM (fun e => do
+    let out ← toStr (← field e "out")
+    let err ← toStr (← field e "err")
+    let status : Option Int := match fieldD e "status" .null with
+      | .null => none
+      | j => (j.getInt?).toOption
+    let clock : Int := ((fieldD e "clock" (.num 0)).getInt?).toOption.getD 0
+    pure ({ outW := bytesOfHex out, errW := bytesOfHex err, status, clock } : PollEvent))
+  match runStreamsFrom utf8Decoder n timeout sched with
+  | .returned code out err => pure (Json.mkObj [("returned", .arr #[.str (toString code), ofStr out, ofStr err])])
+  | .timedOut => pure (Json.mkObj [("outcome", .str "TimeoutExpired")])
+  | .decodeError => pure (Json.mkObj [("outcome", .str "UnicodeDecodeError")])
+  | .stillRunning => pure (Json.mkObj [("outcome", .str "stillRunning")])
+
+partial def progOf (j : Json) : Except String Prog :=
+  match j with
+  | .str "io" => pure (.op .io)
+  | .str "ioQuiet" => pure (.op .ioQuiet)
+  | .str "skip" => pure .skip
+  | _ =>
+    match j.getObjVal? "seq" with
+    | .ok (.arr a) => do pure (seqs (← a.toList.mapM progOf))
+    | _ =>
+    match j.getObjVal? "try" with
+    | .ok (.arr #[b, f]) => do pure (.tryFinally (← progOf b) (← progOf f))
+    | _ =>
+    match j.getObjVal? "withCwd" with
+    | .ok (.arr #[.str d, b]) => do pure (withCwd d.toList (← progOf b))
+    | _ =>
+    match j.getObjVal? "withBaseNone" with
+    | .ok b => do pure (withBaseNone (← progOf b))
+    | _ =>
+    match j.getObjVal? "withCaptureFiles" with
+    | .ok b => do pure (withCaptureFiles (← progOf b))
+    | _ => throw "bad program"
+
+def opEffects (req : Json) : Except String Json := do
+  let p ← progOf (← field req "prog")
+  let s0 : GState := { cwd := lit "/orig", base := some (lit "setting"), temps := [], savedCwd := [], savedBase := [],
+                       savedTemps := [], counter := 0 }
+  let faults ← (← arr (← field req "faults")).mapM (fun j => match j.getNat? with | .ok n => pure n | _ => throw "bad fault")
+  let results := faults.map (fun k =>
+    let r := exec (fun n => n == k) p s0
+    Json.mkObj [("fault", .num k), ("raised", .bool r.2), ("cwd_restored", .bool (r.1.cwd = s0.cwd)),
+                ("base_restored", .bool (r.1.base = s0.base)), ("temps_restored", .bool (r.1.temps = s0.temps))])
+  let clean := exec (fun _ => false) p s0
+  pure (Json.mkObj [("ops", .num clean.1.counter), ("results", .arr results.toArray)])
+
 def dispatch (op : String) (req : Json) : Except String Json :=
   match op with
   | "ping" => pure (okJson (.str "pong"))
@@ -371,6 +433,8 @@ def dispatch (op : String) (req : Json) : Except String Json :=
   | "record" => opRecord req
   | "normpath" => opNormpath req
   | "match_products" => opMatchProducts req
+  | "streams" => opStreams req
+  | "effects" => opEffects req
   | _ => throw s!"unknown op {op}"
 
 def handle (line : String) : String :=
